@@ -1040,6 +1040,8 @@ if __name__ == "__main__":
     ap.add_argument("--list", action="store_true")
     ap.add_argument("--keep", action="store_true")
     ap.add_argument("--full", action="store_true")
+    ap.add_argument("--json", action="store_true", help="one JSON UnitResult per line")
+    ap.add_argument("--replay", action="store_true", help="replay every failed obligation under ASan/UBSan")
     ap.add_argument("-j", "--jobs", type=int, default=1)
     ap.add_argument("--tier", default="all", choices=["all", "quick", "thorough"])
     ap.add_argument("--sanity", action="store_true", help="vacuity self-test: every unit must FAIL only the VERIF_SANITY assertion")
@@ -1054,6 +1056,12 @@ if __name__ == "__main__":
         futs = [(n, ex.submit(run_unit, n, keep=a.keep, sanity=a.sanity)) for n in names]
     for n, fu in futs:
         r = fu.result()
+        if a.replay:
+            for f in r["failed"]:
+                f["replay"] = replay(f)
+        if a.json:
+            print(json.dumps(r))
+            continue
         if a.full:
             print(json.dumps(r, indent=1))
         else:
@@ -1062,3 +1070,6 @@ if __name__ == "__main__":
             for f in r["failed"]:
                 print("     FAIL %s %s @%s :: %s :: inputs=%s" % (f["kind"], f["function"], f["location"],
                                                                  f["clause"] or f["message"], f["inputs"]))
+                if f.get("replay"):
+                    print("          replay: reproduced=%s :: %s" % (
+                        f["replay"]["reproduced"], f["replay"]["output"].strip().splitlines()[-1:] ))
